@@ -101,3 +101,24 @@ impl SimAllocator {
         json!({"pools": pools, "concise": self.allocator.free_resources.verif_dump()})
     }
 }
+
+impl crate::internal::worker::resources::allocator::ResourceAllocator {
+    /// Verification hook: the free amount of every resource (1/10000 units) as the pools of a live worker hold it.
+    pub(crate) fn verif_free_amounts(&self) -> Vec<u64> {
+        self.pools
+            .iter()
+            .map(|p| {
+                let d = p.verif_dump();
+                let whole: u64 = d["free"]
+                    .as_array()
+                    .map(|gs| gs.iter().map(|g| g.as_array().map(|a| a.len() as u64).unwrap_or(0)).sum())
+                    .unwrap_or(0);
+                let frac: u64 = d["frac"]
+                    .as_array()
+                    .map(|fs| fs.iter().map(|f| f["f"].as_u64().unwrap_or(0)).sum())
+                    .unwrap_or(0);
+                whole * 10_000 + frac + d["sum_free"].as_u64().unwrap_or(0)
+            })
+            .collect()
+    }
+}
